@@ -91,8 +91,8 @@ Definition p_assign (ts : list tok) : option (qstmt * list tok) :=
   end.
 Definition p_decl (ts : list tok) : option (qstmt * list tok) :=
   match ts with
-  | TId "qubit" :: TSym "[" :: TInt n :: TSym "]" :: TId "q" :: TSym ";" :: r => Some (SQubitDecl n, r)
-  | TId "bit" :: TSym "[" :: TInt n :: TSym "]" :: TReg k :: TSym ";" :: r => Some (SBitDecl n k, r)
+  | TId kw :: TSym "[" :: TInt n :: TSym "]" :: TId "q" :: TSym ";" :: r => if String.eqb kw "qubit" then Some (SQubitDecl n, r) else None
+  | TId kw :: TSym "[" :: TInt n :: TSym "]" :: TReg k :: TSym ";" :: r => if String.eqb kw "bit" then Some (SBitDecl n k, r) else None
   | _ => None
   end.
 (* def name ( qubit id ) -> bit { body } : the body is a sequence of statements over the parameter, with
